@@ -4,16 +4,17 @@ C17 — model of pandora's configuration decoding (core Lean only, executable, s
 What is mirrored (file → definition):
 * core/config/config.go `newDecoderConfig`                      → `Flags` (`errorUnused`, `zeroFields`; the model covers
                                                                   `WeaklyTypedInput = false` only, see Bridge/Config.lean)
-* core/config/hooks.go `DefaultHooks`, `VariableInjectHook`      → `Flags.resolveFirst`, `injectScalar`, `injectOther`
+* core/config/hooks.go `DefaultHooks`, `VariableInjectHook`, `WholeNumberHook`
+                                                                 → `Flags.resolveFirst`, `Flags.wholeNumbers`, `decodeScalarWith`, `injectOther`
 * lib/confutil/custom_tag_resolver.go `findTags`, `ResolveCustomTags`, `cast`, `castBool/Int/Uint/Float`
                                                                  → `scan`, `resolve`, `castTo`, `parseBoolLit`, `parseIntLit` …
-* lib/confutil/env_var_resolver.go, property_var_resolver.go     → `lookupEnv`, `lookupProp`
+* lib/confutil/env_var_resolver.go, property_var_resolver.go     → `lookupEnv`, `lookupProp`, `findProp`, `lineKV` (the file's lines)
 * mitchellh/mapstructure `decode*` (struct with ErrorUnused, squash, ptr, slice, map, basic kinds; errors are
   accumulated, never dropped)                                    → `decode`, `decodeFlat`
 * core/plugin/pluginconfig/hooks.go `parseConf`, core/import sink/schedule shortcuts, core/plugin `New`/`NewFactory`
   (a factory made from a component constructor fills its config at the first factory call) → the `plugin` case, `R.later`
 * core/config/validator.go + validator.v9 field traversal for the tags the repo uses → `tagsFail`, `R.vfail`
-* cli/cli.go `readConfig` discard_overflow defaulting           → `defaultDiscard`, `cliRead`
+* cli/cli.go `readConfig` discard_overflow defaulting (after viper's key folding) → `lowerKeys`, `defaultDiscard`, `cliRead`
 
 Strings are `List Char` so that every definition reduces in the kernel.
 -/
@@ -818,8 +819,23 @@ def discardDefault : Bool := true
 
 def defaultDiscard := defaultDiscardWith discardDefault
 
-/-- `cli.readConfig` after the file is parsed -/
+mutual
+/-- viper (`insensitiviseMap` / `insensitiveArray`): every mapping key of the parsed file is lower-cased, through nested
+mappings and lists, before `readConfig` looks at the pools -/
+def lowerKeys : Val → Val
+  | .map kvs => .map (lowerKeysKVs kvs)
+  | .list xs => .list (lowerKeysList xs)
+  | v => v
+def lowerKeysKVs : List (Str × Val) → List (Str × Val)
+  | [] => []
+  | (k, v) :: r => (lower k, lowerKeys v) :: lowerKeysKVs r
+def lowerKeysList : List Val → List Val
+  | [] => []
+  | v :: r => lowerKeys v :: lowerKeysList r
+end
+
+/-- `cli.readConfig` after the file is parsed: viper's key folding, the discard_overflow defaulting, the decode -/
 def cliRead (fl : Flags) (env : Env) (s : Schema) (cfg : Val) : Outcome :=
-  decodeAndValidate fl env s (defaultDiscard cfg)
+  decodeAndValidate fl env s (defaultDiscard (lowerKeys cfg))
 
 end Pandora.Model.C17
